@@ -28,9 +28,11 @@ OBLIGATIONS = [
     {"id": "C17_R4a", "theorem": "Iora.C17.R4_failure_evicts", "kind": "proved",
      "statement": "an attempt that held the lease and failed (any failure) leaves no cached connection for the host"},
     {"id": "C17_R4b", "theorem": "Iora.C17.R4_reuse_only_if", "kind": "proved",
-     "statement": "a connection stays cached only if reuse is configured, no close signal, no surplus, not close-delimited, async switch ok"},
+     "statement": "a connection stays cached only if reuse is configured, no close signal, no surplus handed to the framer, not close-delimited, NO residue in the transport when probed (residualDataPending, repair FC17a), async switch ok"},
+    {"id": "C17_R4i", "theorem": "Iora.C17.R4_residue_evicts", "kind": "proved",
+     "statement": "whatever the response: if the transport still holds received bytes / a close / an error when the reuse decision is taken, nothing stays cached for the host"},
     {"id": "C17_R4b2", "theorem": "Iora.C17.R4_surplus_or_close_delimited_never_kept", "kind": "proved",
-     "statement": "a kept connection's response was completed by frameResponse without surplus (never by peer close)"},
+     "statement": "a kept connection's response was completed by frameResponse (never by peer close) with no surplus among the bytes handed to the framer AND none left in the transport"},
     {"id": "C17_R4g", "theorem": "Iora.C17.R4_close_signal_spec", "kind": "proved",
      "statement": "responseRequestsClose (the C++ index loop) = RFC 7230 reading for every value/version: comma-split, OWS-trimmed, ASCII-case-folded token `close`, else `keep-alive`, else HTTP/1.0 default"},
     {"id": "C17_R4g0", "theorem": "Iora.C17.R4_close_signal_absent", "kind": "proved",
@@ -811,7 +813,7 @@ def monitor_case(c, impl, consts):
             if len(e) >= 4 and e[3] not in ("answered", "?"):
                 tainted[e[0]] = "was cut by the server (%s)" % e[3]
         if last is not None and last.cls in "KD" and srv and len(srv[-1]) >= 4 and srv[-1][3] == "answered":
-            if last.surplus or last.residue:
+            if (last.surplus or last.residue) and not judged_by_monitors_only:
                 tainted[srv[-1][0]] = "carried surplus bytes behind a response (in the same write)"
             elif last.cls == "D" or py_close_signalled(last.conn, last.version):
                 tainted[srv[-1][0]] = "carried a response that signalled close"
